@@ -41,7 +41,7 @@ manifest = {
     ],
     "checks": checks,
     "not_applicable": na,
-    "notes": "Genuine defects repaired in /repo by unguarded fix: commits: " + ", ".join(FIX_COMMITS) + ". See known_findings.json and DESIGN.md §9.",
+    "notes": "Genuine defects repaired in /repo by unguarded fix: commits: " + ", ".join(FIX_COMMITS) + ". See known_findings.json and DESIGN.md §9. /repo commits 7ab560e and a592830 cancel each other (a harmless-rewrite trial of the verification tooling that was left in the working tree, and its revert; DESIGN.md §19): no source line differs from 8830379. The harness is built without rustc's incremental cache, and ./setup and ./check rebuild from clean when existing build output is unusable (DESIGN.md §19).",
 }
 json.dump(manifest, open(os.path.join(ROOT, "MANIFEST.json"), "w"), indent=1)
 print("checks:", [c["property_id"] for c in checks], "not claimed:", [n["property_id"] for n in na])
